@@ -1033,6 +1033,9 @@ package jmespath
 //@   assigns \nothing
 //@   ensures {C18} [not-a-syntax-error] !isSyntaxError(err)
 //@   ensures {C18} [go-result] err == nil && specGoVal(result)
+//@   ensures {C18} [a-struct-field-is-found-by-the-key-with-its-first-letter-upper-cased] kindOf(value) == 25 ==> same(result, (goHasField(value, capitalised(key)) && !goFieldUnexported(value, capitalised(key))) ? goField(value, capitalised(key)) : nil)
+//@   ensures {C18} [a-nil-pointer-is-null-and-a-pointer-to-a-struct-is-that-struct] kindOf(value) == 22 ==> same(result, (!goIsNil(value) && kindOf(goElem(value)) == 25 && goHasField(goElem(value), capitalised(key)) && !goFieldUnexported(goElem(value), capitalised(key))) ? goField(goElem(value), capitalised(key)) : nil)
+//@   ensures {C18} [anything-else-has-no-fields] kindOf(value) != 25 && kindOf(value) != 22 ==> isNil(result)
 
 //@ func (*treeInterpreter).filterProjectionWithReflection #go
 //@   props C18
@@ -1163,6 +1166,9 @@ package jmespath
 //@   loop 10 decreases objSize(left) - \k
 //@   loop 11 invariant {C18} [value-projection] !isNil(collected) && allGo(collected, len(collected))
 //@   loop 11 decreases len(values) - \k
+//@   ensures {C18} [a-field-of-a-struct-is-found-by-the-name-with-its-first-letter-upper-cased] node.nodeType == ASTField && kindOf(value) == 25 ==> err == nil && same(result, (goHasField(value, capitalised(strOf(node.value))) && !goFieldUnexported(value, capitalised(strOf(node.value)))) ? goField(value, capitalised(strOf(node.value))) : nil)
+//@   ensures {C18} [a-field-of-a-nil-pointer-is-null-and-a-pointer-to-a-struct-is-followed] node.nodeType == ASTField && kindOf(value) == 22 ==> err == nil && same(result, (!goIsNil(value) && kindOf(goElem(value)) == 25 && goHasField(goElem(value), capitalised(strOf(node.value))) && !goFieldUnexported(goElem(value), capitalised(strOf(node.value)))) ? goField(goElem(value), capitalised(strOf(node.value))) : nil)
+//@   ensures {C18} [a-field-of-an-object-is-its-member-whatever-the-members-are] node.nodeType == ASTField && isObj(value) ==> err == nil && same(result, objHas(value, strOf(node.value)) ? objAt(value, strOf(node.value)) : nil)
 //@   loop 4 invariant {C18} [typed-element-flattened] !isNil(reflectFlat) && allGo(reflectFlat, len(reflectFlat)) && 0 <= i
 //@   loop 4 decreases goLen(element) - i
 
